@@ -230,7 +230,6 @@ int fiber_io_unlock_thread() {
 }
 
 static inline int should_block(int fd) {
-  assert(fd >= 0);
   // suspend the fiber only for descriptors we manage that the application
   // left in (or put back into) blocking mode
   if (!thread_locked && fd_info && fd >= 0 && fd < max_fd &&
@@ -656,18 +655,14 @@ int ioctl(IOCTLPARAMS) {
   void* val = va_arg(args, void*);
   va_end(args);
 
-  if (!thread_locked && request == FIONBIO) {
-    if (!val) {
-      errno = EINVAL;
-      return -1;
-    }
-    assert(d < max_fd);
+  // only descriptors we manage have a mode to remember; for anything else
+  // (closed, out of range, not ours) the real call decides and reports errors
+  if (!thread_locked && request == FIONBIO && val && fd_info && d >= 0 &&
+      d < max_fd && (fd_info[d].flags_ & IO_FLAG_WAITABLE)) {
     if (*(int*)val) {
       atomic_fetch_and(&fd_info[d].flags_, ~IO_FLAG_BLOCKING);
-      assert(!(fd_info[d].flags_ & IO_FLAG_BLOCKING));
     } else {
       atomic_fetch_or(&fd_info[d].flags_, IO_FLAG_BLOCKING);
-      assert(fd_info[d].flags_ & IO_FLAG_BLOCKING);
     }
     return 0;
   }
@@ -684,8 +679,8 @@ int close(int fd) {
     fibershim_close = (closeFnType)dlsym(RTLD_NEXT, "close");
   }
 
-  fiber_fd_closed(fd);
-  if (fd_info && fd < max_fd) {
+  if (fd >= 0 && fd_info && fd < max_fd) {
+    fiber_fd_closed(fd);
     fd_info[fd].flags_ = 0;
   }
   return fibershim_close(fd);
